@@ -1,9 +1,9 @@
 #!/bin/sh
 # runs every kept seeded change against its property's quick check (scratch copies; /repo untouched)
+# usage: lib/allseeds.sh [parallel jobs]   (VERIF_SRC=<snapshot of /verif> to run from a copy)
 cd /verif
-for d in seeded/*/; do
-  tag=$(basename $d)
-  prop=$(python3 -c "import json;print(json.load(open('$d/meta.json'))['property'])")
+ls seeded | xargs -P ${1:-1} -I{} sh -c '
+  tag={}
+  prop=$(python3 -c "import json;print(json.load(open(\"/verif/seeded/$tag/meta.json\"))[\"property\"])")
   res=$(lib/seedrun.sh $tag $prop quick /verif/seeded/$tag/patch.diff 2>&1 | grep -v "^KNOWN" | grep -E "^(OK|VIOLATION|PATCH|worktree)" | head -1 | cut -c1-160)
-  echo "$tag $prop :: $res"
-done
+  echo "$tag $prop :: $res"'
